@@ -17,6 +17,7 @@ from __future__ import annotations
 import ast
 
 from .. import astutil as A
+from .. import rxmodel
 from ..alg import Interp, Obj, Poly, Undecided, fn, to_poly
 
 EXPLANATION = (
@@ -48,7 +49,7 @@ def run(ctx):
     for f in (bm, bmeas, bs, wx, ps, pmz, parse, irh):
         ctx.touch(f)
     r1 = ctx.rule("C18.R1", "TABLE: writer mod_map (type->tag) is the inverse of the reader's tag chain (tag->type) on the six exportable types; for each tag the attributes the reader indexes unconditionally are emitted by the writer", "TABLE", floor=14)
-    r2 = ctx.rule("C18.R2", "UNIT: reader(writer(x)) == x for LumiRelErr (relative), Lumi, StatError and ShapeSys histograms (relative to nominal), OverallSys High/Low, NormFactor Val/Low/High, HistoSys Low/High", "UNIT", floor=7)
+    r2 = ctx.rule("C18.R2", "UNIT: reader(writer(x)) == x for LumiRelErr (relative), Lumi, StatError and ShapeSys histograms (relative to nominal), OverallSys High/Low, HistoSys Low/High (NormFactor Val/Low/High: see R5)", "UNIT", floor=6)
     r3 = ctx.rule("C18.R3", "TABLE: writer prefixes {normsys, histosys: alpha_; shapesys, staterror: gamma_; lumi: Lumi} == compat.paramset_to_rootnames; compat.interpret_rootname maps them back", "TABLE", floor=5)
     r4 = ctx.rule("C18.R4", "CACHE: readxml.parse empties the module-level ROOT file cache before importing (or the cache key carries file identity); only import_root_histogram/clear_filecache write the cache; writexml's global ROOT handle is bound by its `with` and every function reading it is called only beneath that `with`", "CACHE", floor=4)
 
@@ -202,20 +203,16 @@ def run(ctx):
     # round trip through both compat functions, by interpretation (regular expressions are evaluated on the concrete
     # names): the parameter-set name is chosen so that prefix-character stripping, greedy matching and digit
     # handling all show ("amp_lag_2x" starts with characters of both prefixes and carries digits and underscores)
-    import re as _re
 
-    def _search(a, k):
-        m = _re.search(a[0], a[1]) if isinstance(a[0], str) and isinstance(a[1], str) else None
-        return None if m is None else Obj("match", {"groups": [m.group(0)] + list(m.groups())})
-
-    rx = {"search": _search, "match": lambda a, k: (lambda m: None if m is None else Obj("match", {"groups": [m.group(0)] + list(m.groups())}))(_re.match(a[0], a[1])),
-          "fullmatch": lambda a, k: (lambda m: None if m is None else Obj("match", {"groups": [m.group(0)] + list(m.groups())}))(_re.fullmatch(a[0], a[1])),
-          ".group": lambda recv, a, k: recv.attrs["groups"][int(to_poly(a[0]).const_value()) if a else 0]}
-    NAME = "amp_lag_2x"
-    kinds = [("scalar constrained", {"name": NAME, "is_scalar": True, "constrained": True, "n_parameters": Poly.const(1)}, {"name": NAME, "is_scalar": True, "constrained": True}),
-             ("scalar unconstrained", {"name": NAME, "is_scalar": True, "constrained": False, "n_parameters": Poly.const(1)}, {"name": NAME, "is_scalar": True, "constrained": False}),
-             ("per-bin (2 components)", {"name": NAME, "is_scalar": False, "constrained": True, "n_parameters": Poly.const(2)}, {"name": NAME, "is_scalar": False}),
-             ("luminosity", {"name": "lumi", "is_scalar": True, "constrained": True, "n_parameters": Poly.const(1)}, {"name": "lumi", "is_scalar": True})]
+    rx = rxmodel.externals()
+    rx_env = rxmodel.compiled_globals(repo.module(C))
+    kinds = [("luminosity", {"name": "lumi", "is_scalar": True, "constrained": True, "n_parameters": Poly.const(1)}, {"name": "lumi", "is_scalar": True})]
+    # "amp_lag_2x": starts with characters of both prefixes, digits and underscores inside; "JES_1", "stat_ch_7_12": the name
+    # itself ends in _<digits>, which is what the per-bin suffix looks like
+    for NAME in ("amp_lag_2x", "JES_1", "stat_ch_7_12"):
+        kinds += [(f"scalar constrained {NAME}", {"name": NAME, "is_scalar": True, "constrained": True, "n_parameters": Poly.const(1)}, {"name": NAME, "is_scalar": True, "constrained": True}),
+                  (f"scalar unconstrained {NAME}", {"name": NAME, "is_scalar": True, "constrained": False, "n_parameters": Poly.const(1)}, {"name": NAME, "is_scalar": True, "constrained": False}),
+                  (f"per-bin (2 components) {NAME}", {"name": NAME, "is_scalar": False, "constrained": True, "n_parameters": Poly.const(2)}, {"name": NAME, "is_scalar": False})]
     for lab, attrs, want in kinds:
         try:
             names = Interp({"paramset": Obj("p", attrs)}, {}, {}).run(A.strip_docstring(ptr.node.body))
@@ -224,7 +221,7 @@ def run(ctx):
             for idx, rn in enumerate(lst):
                 if not isinstance(rn, str):
                     raise Undecided(f"root name is not a string: {rn}")
-                got = Interp({"rootname": rn, "re": Obj("re")}, {}, {}, externals=rx).run(A.strip_docstring(irn.node.body))
+                got = Interp({"rootname": rn, "re": Obj("re"), **rx_env}, {}, {}, externals=rx).run(A.strip_docstring(irn.node.body))
                 exp = dict(want)
                 if isinstance(names, list):
                     exp["element"] = idx
@@ -378,7 +375,9 @@ def _unit_modifiers(ctx, rid, bm, ps):
                 ctx.holds(rid, f"StatError histogram [{lab}]", f"writer {wv}, reader x nominal -> UNC")
             else:
                 ctx.violated(rid, bm, f"StatError relative/absolute [{lab}]", "the MC-statistical uncertainty does not survive export+import (relative in the file, absolute in pyhf)", expected="UNC", found=str(rv))
-    except (StopIteration, Undecided, AttributeError) as e:
+    except StopIteration:
+        pass  # other code shape: decided by the round trip (R5)
+    except (Undecided, AttributeError) as e:
         ctx.unrecognised(rid, bm, "StatError conversion", f"{type(e).__name__}: {e}")
     # ---- ShapeSys
     wb = _branch(bm.node, "modifierspec['type']", None, "shapesys")
@@ -409,7 +408,9 @@ def _unit_modifiers(ctx, rid, bm, ps):
                 ctx.holds(rid, f"ShapeSys histogram [{lab}]", f"writer {wv}, reader x nominal -> UNC")
             else:
                 ctx.violated(rid, bm, f"ShapeSys relative/absolute [{lab}]", "the uncorrelated shape uncertainty does not survive export+import", expected="UNC", found=str(rv))
-    except (StopIteration, Undecided, AttributeError, IndexError) as e:
+    except StopIteration:
+        pass  # the conversion is not written as divide-in-a-comprehension: the round trip (R5) decides it on its own
+    except (Undecided, AttributeError, IndexError) as e:
         ctx.unrecognised(rid, bm, "ShapeSys conversion", f"{type(e).__name__}: {e}")
     # ---- OverallSys / NormFactor / HistoSys attribute pairing
     pairs = {
@@ -457,32 +458,7 @@ def _unit_modifiers(ctx, rid, bm, ps):
             ctx.holds(rid, f"<{tag}> value pairing", str(amap))
         else:
             ctx.violated(rid, bm, f"<{tag}> High/Low pairing", f"up and down variations are not written and read back under the same attribute: {why}", expected=str(amap))
-    # NormFactor Val/Low/High
-    wb = _branch(bm.node, "modifierspec['type']", None, "normfactor")
-    rb = _branch(ps.node, f"{MODVAR}.tag", None, "NormFactor")
-    try:
-        wsrc = {A.const_value(x.targets[0].slice): A.unparse(x.value) for st in wb.body for x in ast.walk(st) if isinstance(x, ast.Assign) and isinstance(x.targets[0], ast.Subscript) and A.dotted(x.targets[0].value) == AV}
-        rd = next(d for d in ast.walk(ast.Module(body=rb.body, type_ignores=[])) if isinstance(d, ast.Dict) and any(A.const_value(k) == "bounds" for k in d.keys))
-        rmap = {A.const_value(k): A.unparse(v) for k, v in zip(rd.keys, rd.values)}
-        from ..dep import Deps as _D2
-        _wd = _D2(bm.node)
-        def _src(attr):
-            v = next((x.value for st in wb.body for x in ast.walk(st) if isinstance(x, ast.Assign) and isinstance(x.targets[0], ast.Subscript) and A.const_value(x.targets[0].slice) == attr), None)
-            names = A.names_loaded(v) if v is not None else set()
-            return " ".join(A.unparse(dv) for nm in names for dv in _wd.defs.get(nm, []))
-        lowhigh = None
-        for st in ast.walk(wb.body[0] if False else ast.Module(body=wb.body, type_ignores=[])):
-            if isinstance(st, ast.Assign) and isinstance(st.targets[0], ast.Tuple) and len(st.targets[0].elts) == 2 and "'bounds'" in A.unparse(st.value):
-                lowhigh = [A.unparse(e) for e in st.targets[0].elts]
-        lv = next((A.unparse(x.value) for st in wb.body for x in ast.walk(st) if isinstance(x, ast.Assign) and isinstance(x.targets[0], ast.Subscript) and A.const_value(x.targets[0].slice) == "Low"), "")
-        hv = next((A.unparse(x.value) for st in wb.body for x in ast.walk(st) if isinstance(x, ast.Assign) and isinstance(x.targets[0], ast.Subscript) and A.const_value(x.targets[0].slice) == "High"), "")
-        ok = "'inits'" in _src("Val") and lowhigh is not None and lv == f"str({lowhigh[0]})" and hv == f"str({lowhigh[1]})" and "'Val'" in rmap.get("inits", "") and rmap.get("bounds", "").index("'Low'") < rmap.get("bounds", "").index("'High'")
-        if ok:
-            ctx.holds(rid, "<NormFactor> Val/Low/High", "inits <- Val, bounds <- [Low, High]")
-        else:
-            ctx.violated(rid, bm, "NormFactor Val/Low/High", "normalisation-factor start value and bounds are not written/read under Val, Low, High consistently", found=f"writer {wsrc}, reader {rmap}")
-    except (StopIteration, ValueError, AttributeError) as e:
-        ctx.unrecognised(rid, bm, "NormFactor", f"{type(e).__name__}: {e}")
+    # NormFactor Val/Low/High: decided by the interpreted round trip (R5: inits / bounds of `mu`, twice), whatever the code shape
 
 
 def _roundtrip(ctx, rid, repo):
@@ -502,24 +478,27 @@ def _roundtrip(ctx, rid, repo):
     def mk_world(store, region):
         ext = xmlmodel.externals(store)
 
-        def rxm(m):
-            return None if m is None else Obj("match", {"groups": [m.group(0)] + list(m.groups())})
-
-        def group(recv, a, k):
-            if not (isinstance(recv, Obj) and "groups" in recv.attrs):
-                raise NotHandled()
-            return recv.attrs["groups"][int(to_poly(a[0]).const_value()) if a else 0]
-
-        ext.update({"search": lambda a, k: rxm(_re.search(a[0], a[1])), "match": lambda a, k: rxm(_re.match(a[0], a[1])), ".group": group})
-        w = World(ext, region=region, module_env={"ET": Obj("ET"), "np": Obj("np"), "log": Obj("log"), "_ROOT_DATA_FILE": Obj("rootfile", {"file_path": "data.root"}), "compat": Obj("compat"), "re": Obj("re"), "tqdm": Obj("tqdm")})
+        ext.update(rxmodel.externals())
+        w = World(ext, region=region, module_env={"ET": Obj("ET"), "np": Obj("np"), "log": Obj("log"), "_ROOT_DATA_FILE": Obj("rootfile", {"file_path": "data.root"}), "compat": Obj("compat"), "re": Obj("re"), "tqdm": Obj("tqdm"), **rxmodel.compiled_globals(repo.module(C)), **rxmodel.compiled_globals(repo.module(W)), **rxmodel.compiled_globals(repo.module(R))})
         for n in wfuncs:
             w.add_func(repo.func(W, n))
         for n in rfuncs:
             w.add_func(repo.func(R, n))
         w.add_func(repo.func(C, "interpret_rootname"))
+        # helpers the writer / reader may be split into (anything the file model does not stand in for)
+        for rel_ in (W, R):
+            for q, f_ in repo.module(rel_).funcs.items():
+                if "." not in q and q not in ext and q not in w.funcs and q not in ("writexml", "parse", "clear_filecache", "dedupe_parameters", "extract_error"):
+                    w.add_func(f_)
         return w
 
-    def spec():
+    def spec(empty_bin=False):
+        sp_ = _spec()
+        if empty_bin:
+            sp_["channels"][0]["samples"][1]["data"][1] = Poly.const(0)
+        return sp_
+
+    def _spec():
         return {"channels": [{"name": "ch", "samples": [
             {"name": "s1", "data": [at("n0"), at("n1")], "modifiers": [
                 {"name": "mu", "type": "normfactor", "data": None},
@@ -558,11 +537,12 @@ def _roundtrip(ctx, rid, repo):
             return v
         return str(to_poly(v))
 
-    for lab, reps in (("all yields positive", {}), ("one yield negative", {"m1": _F(-3), "n0": _F(-2)})):
+    for lab, reps in (("all yields positive", {}), ("one yield negative", {"m1": _F(-3), "n0": _F(-2)}), ("one empty bin in the sample carrying staterror and shapesys", {})):
         site = f"{W} -> {R} [{lab}]"
         region = AutoRegion()
         region.update(reps)
-        sp = spec()
+        empty_bin = lab.startswith("one empty bin")
+        sp = spec(empty_bin)
         store = {}
         w = mk_world(store, region)
         try:
@@ -576,7 +556,7 @@ def _roundtrip(ctx, rid, repo):
         except (Undecided, KeyError, TypeError, ValueError, IndexError, AttributeError) as e:
             ctx.unrecognised(rid, repo.func(W, "build_channel"), f"round trip [{lab}]", f"not interpretable: {type(e).__name__}: {e}")
             continue
-        orig = spec()
+        orig = spec(empty_bin)
         problems = []
         if name != "ch":
             problems.append(("channel name", "ch", name))
@@ -595,6 +575,11 @@ def _roundtrip(ctx, rid, repo):
             if sorted(gm) != sorted(om):
                 problems.append((f"modifiers of {os_['name']}", sorted(om), sorted(gm)))
             for key_ in om:
+                if empty_bin and key_[1] in ("staterror", "shapesys") and key_ in gm and isinstance(gm[key_], (list, tuple)) and len(gm[key_]) == 2:
+                    # a relative uncertainty on an empty bin has no representation in the format: only the filled bin is compared
+                    if not same(gm[key_][0], om[key_][0]):
+                        problems.append((f"data of {key_[1]} {key_[0]} on {os_['name']} (filled bin)", show(om[key_][0]), show(gm[key_][0])))
+                    continue
                 if key_ in gm and not same(gm[key_], om[key_]):
                     problems.append((f"data of {key_[1]} {key_[0]} on {os_['name']}", show(om[key_]), show(gm[key_])))
         if len(meas) != 2:
@@ -618,6 +603,24 @@ def _roundtrip(ctx, rid, repo):
             mu = pars.get("mu", {})
             if not (same(mu.get("inits"), [at("V")]) and same(mu.get("bounds"), [[at("MLO"), at("MHI")]])):
                 problems.append(("normfactor settings", "inits [V], bounds [[MLO, MHI]]", show({k: mu.get(k) for k in ("inits", "bounds")})))
+        if not problems and lab == "all yields positive":
+            # HISTORY: the same specification OBJECT is exported a second time after its normfactor settings were edited in place
+            try:
+                sp["measurements"][0]["config"]["parameters"][1]["inits"] = [at("V_second")]
+                sp["measurements"][0]["config"]["parameters"][1]["bounds"] = [[at("MLO_second"), at("MHI_second")]]
+                store.clear()
+                ch2 = w.call_func(repo.func(W, "build_channel"), [sp, sp["channels"][0], sp["observations"]])
+                _, _, _, pconfigs2 = w.call_func(repo.func(R, "process_channel"), [ch2, Obj("resolver")])
+                top2 = xmlmodel.Elem("Combination")
+                for ms_ in sp["measurements"]:
+                    top2.children.append(w.call_func(repo.func(W, "build_measurement"), [ms_, mtypes]))
+                meas2 = w.call_func(repo.func(R, "process_measurements"), [top2], {"other_parameter_configs": pconfigs2})
+                mu2 = {p_["name"]: p_ for p_ in meas2[0]["config"]["parameters"]}.get("mu", {})
+                if not (same(mu2.get("inits"), [at("V_second")]) and same(mu2.get("bounds"), [[at("MLO_second"), at("MHI_second")]])):
+                    problems.append(("normfactor settings of a SECOND export of the same specification object after they were edited in place (the first export's values are written again)", "inits [V_second], bounds [[MLO_second, MHI_second]]", show({k: mu2.get(k) for k in ("inits", "bounds")})))
+            except (Undecided, KeyError, TypeError, ValueError, IndexError, AttributeError) as e:
+                ctx.unrecognised(rid, repo.func(W, "build_channel"), f"round trip, second export [{lab}]", f"not interpretable: {type(e).__name__}: {e}")
+                continue
         if problems:
             what, exp, got = problems[0]
             ctx.violated(rid, repo.func(W, "build_channel") if "measurement" not in what and "luminosity" not in what and "constant" not in what else repo.func(W, "build_measurement"), f"round trip: {what} [{lab}]", f"export followed by import does not give back the {what}" + (f" (and {len(problems) - 1} more difference(s))" if len(problems) > 1 else ""), expected=str(exp), found=str(got))
